@@ -9,6 +9,7 @@ import (
 	"github.com/EliCDavis/bitlib"
 	"github.com/EliCDavis/polyform/modeling"
 	"github.com/EliCDavis/vector/vector3"
+	"github.com/EliCDavis/vector/vector4"
 )
 
 const SH_C0 = 0.28209479177387814
@@ -71,11 +72,15 @@ func Write(out io.Writer, mesh modeling.Mesh) error {
 		alpha := 1. / (1 + math.Exp(-opacityData.At(i)))
 		writer.Byte(byte(alpha * 255))
 
-		rot := rotationData.At(i)
-		writer.Byte(byte((rot.X() * 128) + 128))
-		writer.Byte(byte((rot.Y() * 128) + 128))
-		writer.Byte(byte((rot.Z() * 128) + 128))
-		writer.Byte(byte((rot.W() * 128) + 128))
+		rot := rotationData.
+			At(i).
+			Scale(128).
+			Add(vector4.Fill(128.)).
+			Clamp(0, 255)
+		writer.Byte(byte(rot.X()))
+		writer.Byte(byte(rot.Y()))
+		writer.Byte(byte(rot.Z()))
+		writer.Byte(byte(rot.W()))
 
 		if writer.Error() != nil {
 			return writer.Error()
